@@ -444,8 +444,15 @@ void c28_case(Ctx& c, Rng& r) {
             std::vector<std::uint8_t> body;
             if (fetch_mode) h = {{"COMMAND", "FETCH"}, {"MANIFEST", held_uri}, {"STREAM", "client"}};
             else { body = r.bytes(8 + r.below(24)); h = {{"COMMAND", "STORE"}, {"PAYLOAD-LENGTH", std::to_string(body.size())}, {"TTL", "600"}}; }
-            const auto vary = r.below(5);
-            if (vary == 0) h.emplace_back("TOKEN", "t" + std::to_string(r.next()));
+            const auto vary = r.below(8);
+            if (vary >= 5) {
+                // headers that belong to other request shapes: an OUT path next to STREAM:client, a file name, a stray STREAM on STORE
+                if (fetch_mode) h.emplace_back("OUT", vary == 5 ? c.scratch + "/rate-out-" + std::to_string(q) : (vary == 6 ? std::string("relative-out.bin") : std::string(" ")));
+                else if (vary == 5) h.emplace_back("FILENAME", "f" + std::to_string(r.next()) + ".bin");
+                else if (vary == 6) h.emplace_back("STREAM", "client");
+                else h.emplace_back("OUT", c.scratch + "/rate-store-out");
+            }
+            else if (vary == 0) h.emplace_back("TOKEN", "t" + std::to_string(r.next()));
             else if (vary == 1) h.emplace_back("TOKEN", "");
             else if (vary == 2) h.emplace_back("X-CLIENT", std::to_string(r.next()));
             else if (vary == 3) { h.emplace_back("TOKEN", "same"); }
@@ -459,7 +466,7 @@ void c28_case(Ctx& c, Rng& r) {
                 c.note_max(fetch_mode ? "rate.max-fetches-accepted-in-30s" : "rate.max-stores-accepted-in-30s", in_window);
                 if (in_window > limit)
                     c.violation(fetch_mode ? "C28:rate:more-than-12-streamed-fetches-in-30s" : "C28:rate:more-than-6-stores-in-30s",
-                                J().kv("accepted_in_window", in_window).kv("varying_header", vary == 0 ? "fresh TOKEN" : (vary == 1 ? "empty TOKEN" : (vary == 2 ? "X-CLIENT" : (vary == 3 ? "same TOKEN" : "none")))).str());
+                                J().kv("accepted_in_window", in_window).kv("varying_header", vary == 0 ? "fresh TOKEN" : (vary == 1 ? "empty TOKEN" : (vary == 2 ? "X-CLIENT" : (vary == 3 ? "same TOKEN" : (vary >= 5 ? "OUT / FILENAME / STREAM of another request shape" : "none"))))).str());
             } else {
                 c.note("rate.refused");
                 if (resp.code().find("RATE") == std::string::npos) c.violation("C28:rate:unexpected-refusal", J().kv("code", resp.code()).str());
